@@ -95,6 +95,8 @@ CO_SDO *COSdoCheck(CO_SDO *srv, CO_IF_FRM *frm)
 {
     CO_SDO  *result = 0;
     uint8_t  n;
+    uint8_t  cmd;
+    uint8_t  init;
 
     if (frm != 0) {
         n = 0;
@@ -103,7 +105,15 @@ CO_SDO *COSdoCheck(CO_SDO *srv, CO_IF_FRM *frm)
                 CO_SET_ID(frm, srv[n].TxId);
                 srv[n].Frm   = frm;
                 srv[n].Abort = 0;
-                if (srv[n].Obj == 0) {
+                /* initiate requests name their object, even if a (segmented) transfer is still open */
+                cmd  = CO_GET_BYTE(frm, 0);
+                init = 0;
+                if ((srv[n].Blk.State == BLK_IDLE) &&
+                    (((cmd & 0xF2) == 0x22) || (cmd == 0x40) || ((cmd & 0xF2) == 0x20) ||
+                     ((cmd & 0xF9) == 0xC0) || ((cmd & 0xE3) == 0xA0))) {
+                    init = 1;
+                }
+                if ((srv[n].Obj == 0) || (init != 0)) {
                     srv[n].Idx = CO_GET_WORD(frm, 1);
                     srv[n].Sub = CO_GET_BYTE(frm, 3);
                 }
